@@ -163,7 +163,10 @@ Definition b_clear_ckpt (b : bundler) : bundler :=        (* clear_checkpoint *)
      breads := breads b; bseq := bseq b; bseqcopy := []; bdescs := bdescs b; bintr := bintr b; bcached := bcached b |}.
 
 Definition b_rewind (b : bundler) : bundler :=            (* rewind *)
-  let seq0 := bseqcopy b in
+  let seq0 := match alookup INTR (bseq b) with            (* the interruptions counter is kept *)
+              | Some n => aset INTR n (bseqcopy b)
+              | None => bseqcopy b
+              end in
   let fill := fun (acc : list (nat * nat) * list (nat * nat)) (d : nat * list nat) =>
                 if amem (fst d) (fst acc) then acc
                 else (aset (fst d) 1 (fst acc), aset (fst d) 1 (snd acc)) in
@@ -632,7 +635,7 @@ Definition exec_cmd (s : st) (m : msg) : st * cres * list obs :=
       | None => (s, Done (RExn EIMS), [])
       | Some b =>
           let st_ := match es with Some x => x | None => XSuccess end in
-          let s1 := set_bundlers s (aremove (mrun m) (bundlers s)) in
+          let s1 := reset_checkpoint (set_bundlers s (aremove (mrun m) (bundlers s))) in   (* closing a run is a checkpoint *)
           (s1, Done (RVal (VUid (buid b))), [ODoc (DStop (buid b) st_ rs (num_events b))])
       end
   | CCreate name =>
@@ -999,7 +1002,7 @@ Fixpoint drive (fuel : nat) (s : st) (c : ctl) (os : list obs) : st * list obs :
     end
   end.
 
-Definition FUEL (s : st) : nat := 3 * List.length (plans s) + 12.
+Definition FUEL (s : st) : nat := 4 * List.length (plans s) + 16.
 
 (* one step of the `_run` task *)
 Definition task_step (s : st) : st * list obs :=
